@@ -32,15 +32,16 @@ pub fn run_with_args<W: Write>(
         return Ok(());
     }
 
-    // Extract stdin content once at the beginning
-    let stdin_content = extract_stdin_once()?;
-
+    // Only the commands that take a Zerv object from stdin read it (once); `check` and `render`
+    // must not depend on, or wait for, whatever happens to be piped in
     match cli.command {
         Some(Commands::Version(version_args)) => {
+            let stdin_content = extract_stdin_once()?;
             let output = run_version_pipeline(*version_args, stdin_content.as_deref())?;
             writeln!(writer, "{output}")?;
         }
         Some(Commands::Flow(flow_args)) => {
+            let stdin_content = extract_stdin_once()?;
             let output = run_flow_pipeline(*flow_args, stdin_content.as_deref())?;
             writeln!(writer, "{output}")?;
         }
